@@ -309,12 +309,13 @@ func c18GenMonReal(r *rand.Rand, id int) c18Case {
 		}
 		q := pool[r.Intn(len(pool))]
 		entry := r.Intn(2)
-		key := fmt.Sprint(entry) + "|" + strings.Map(func(c rune) rune { // the cache files a query under its ASCII-lower-cased text, exactly
-			if c >= 'A' && c <= 'Z' {
-				return c + 32
+		kb := []byte(q) // the cache files a query under its ASCII-lower-cased bytes, exactly
+		for x, ch := range kb {
+			if ch >= 'A' && ch <= 'Z' {
+				kb[x] = ch + 32
 			}
-			return c
-		}, q)
+		}
+		key := fmt.Sprint(entry) + "|" + string(kb)
 		var res []database.SearchResult
 		if entry == 0 {
 			res = mdb.SearchWithMonitoring(q, 5)
